@@ -55,6 +55,8 @@ def make_script(verb, size, timing, env="plain"):
                 sp.HIGH = 256
                 ctl.notes["unread"] = True
         line = {"RETR": "RETR big.bin", "STOR": "STOR up.bin", "APPE": "APPE f.txt", "LIST": "LIST", "MLSD": "MLSD d"}[verb]
+        if env == "rest-pending":
+            await ctl.cmd(c, "REST 3")  # the transfer about to be aborted was to start at an offset
         await ctl.send(c, line)
         ctl.notes["phase"] = "sent"
         if timing == "never":
@@ -133,6 +135,14 @@ def corpus(thorough=False):
         out.append((verb, 200, "early", "throttled"))
         out.append((verb, 200, "early", "slow-backend"))
         out.append((verb, 65, "late", "slow-backend"))
+    # a restart offset was pending for the transfer that gets aborted: nothing of it may reach the NEXT transfer
+    # (the data connection is never made: the worker is cancelled while it waits, before it could take the offset)
+    for verb in ("RETR", "STOR", "APPE"):
+        out.append((verb, 200, "never", "rest-pending"))
+    # a backend whose calls run in an executor and take their time: the ABOR finds the worker inside such a call
+    for verb in ("RETR", "STOR"):
+        out.append((verb, 200, "early", "slow-disk"))
+    out.append(("LIST", 0, "early", "slow-disk"))
     # the peer made the data connection but never reads from it: ABOR must be answered without it draining
     out.append(("RETR", 4096, "early", "unread"))
     for verb in ("LIST", "MLSD"):
@@ -153,6 +163,11 @@ def scenario_of(spec):
     if env == "slow-backend":
         def spy_setup(spy, loop):
             spy.delay = 0.01
+    if env == "slow-disk":
+        def world_setup(wd):
+            wd.vexec.delay = 0.05
+
+        return Scenario("%s-%d-%s-%s" % spec, make_script(verb, size, timing, env), tree=tree, server_kwargs=kw, backend="vasync", world_setup=world_setup)
     return Scenario("%s-%d-%s-%s" % spec, make_script(verb, size, timing, env), tree=tree, server_kwargs=kw, spy_setup=spy_setup)
 
 
@@ -285,7 +300,7 @@ def oracle(spec, k, r):
         return None  # ABOR before login is a 503 matter (C03)
     aa = r["after_abor"]
     # replies that belong to the transfer itself may still arrive after ABOR was sent (150, completion, 425)
-    rest = [c for c in aa if c not in (150,)]
+    rest = [c for c in aa if c not in (150, 350)]  # (350: the answer to a REST the script sent just before)
     pos = r["pos"]
     if not r["alive"]:
         return {"input": inp, "what": "ABOR (worker position %s) got replies %r and the server dropped the session" % (pos, aa), "signature": "C14:session-dropped:abor-while-worker-%s" % pos}
